@@ -17,6 +17,14 @@ for p in "$@"; do
     c=$(echo "$out" | grep -c "^VIOLATION" ); t=$(echo "$out" | grep "^VIOLATION" | grep -c "no-failing-input-found$")
     first=$(echo "$out" | grep -m1 "^# " | cut -c3-90 | tr ' ' '_')
     echo "RESEED $id $p rc=$rc concrete=$((c-t)) tie_only=$t first=$first"
+    # HARVEST=<dir>: keep the first shrunk replay that carries a failing input, as a corpus candidate
+    if [ -n "${HARVEST:-}" ]; then
+      r=$(echo "$out" | grep "^VIOLATION" | grep -v "no-failing-input-found$" | head -1 | sed 's/.*replay=//; s/ .*//')
+      if [ -n "$r" ] && [ -f "$r" ]; then
+        st=$(python3 -c "import json,sys;print(json.load(open(sys.argv[1])).get('stream',''))" "$r" 2>/dev/null)
+        [ -n "$st" ] && mkdir -p "$HARVEST/$p" && cp "$r" "$HARVEST/$p/${st}_seeded_${id}.json"
+      fi
+    fi
     rm -rf /tmp/rs_ev_$$; git -C /repo worktree remove --force "$wt" >/dev/null 2>&1
   done
 done
